@@ -60,7 +60,7 @@ impl Property for C16 {
     }
     fn budget(&self, tier: Tier) -> (u32, u32) {
         match tier {
-            Tier::Quick => (600, 8),
+            Tier::Quick => (1500, 8),
             Tier::Thorough => (9000, 16),
         }
     }
